@@ -299,10 +299,12 @@ class SoftTTLCache(Entity):
             self._coalesced_requests += 1
             # Wait for backing store latency (simulating waiting for the refresh)
             yield self._backing_store.read_latency
-            # Check if the refresh completed
-            if key in self._cache:
-                return self._cache[key].value
-            return None
+            # Serve what the refresh brought in. An entry that is still past
+            # its hard TTL (the refresh found nothing, or has not landed yet)
+            # must not be served: fall through to a blocking fetch instead.
+            refreshed = self._cache.get(key)
+            if refreshed is not None and refreshed.is_valid(self.now, self._hard_ttl):
+                return refreshed.value
 
         # Fetch from backing store (blocking)
         value = yield from self._backing_store.get(key)
